@@ -60,6 +60,10 @@ def configs(tier):
             {"N": 101, "mode": "num_batches", "req": 101, "alpha": "sparse",
              "depth": 3 if tier == "quick" else 4,
              "max_states": 60 if tier == "quick" else 400}]
+    # a function that returns nothing (run for its side effects): a finished
+    # batch is a finished batch
+    wide += [{"N": 4, "mode": "batchsize", "req": 2, "alpha": "full",
+              "depth": 12, "kind": "none"}]
     # crops sown from cases
     wide += [{"N": 3, "mode": "batchsize", "req": 1, "alpha": "full",
               "depth": 12, "cases": True},
@@ -87,7 +91,8 @@ class World:
         self.cfg, self.d, self.tier = cfg, d, tier
         self.B = nbatches(cfg)
         self.N = cfg["N"]
-        self.fs = [xfn.make_fn(["a"], kind="num", name="f08", version=v)
+        self.kind = cfg.get("kind", "num")
+        self.fs = [xfn.make_fn(["a"], kind=self.kind, name="f08", version=v)
                    for v in (0, 1)]
         self.f = self.fs[0]
         self.ver = 0  # which function was sown last
@@ -136,15 +141,20 @@ class World:
                 grow(i, crop=self.fresh(), verbosity=0)
             self.batches[i] = log.encs()
             new = sorted(set(fsseam.snapshot(self.d)) - before)
-            if len(new) != 1:
+            official = os.path.join(".xyz-" + NAME, "results",
+                                    "xyz-result-%d.jbdmp" % i)
+            if len(new) > 1 or (new and new[0] != official):
                 raise core.HarnessError("growing batch %d alone created %r"
                                         % (i, new))
-            self.resfile[i] = new[0]
+            # (a tree on which that grow leaves nothing behind is judged by
+            # the events, not here)
+            self.resfile[i] = official
         fsseam.restore(self.d, snap)
         _LEARNED[ck] = (dict(self.batches), dict(self.resfile))
 
     def expected_result(self, i):
-        return tuple(xfn.value("num", e, self.ver) for e in self.batches[i])
+        return tuple(xfn.value(self.kind, e, self.ver)
+                     for e in self.batches[i])
 
     def disk_finished(self):
         out = set()
@@ -289,7 +299,9 @@ class World:
             bad_setting = self.batches[j][-1]
             # (the function fails with an ordinary error or, alternately,
             # with StopIteration - which generators and map() treat specially)
-            exc = "StopIteration" if (j + len(finished)) % 2 else None
+            # (... or with KeyboardInterrupt, which is not an Exception)
+            exc = [None, "StopIteration", "KeyboardInterrupt"][
+                (j + len(finished)) % 3]
             with xfn.FailSet([bad_setting], exc=exc), xfn.CallLog():
                 try:
                     if kind == "fgrow":
@@ -299,7 +311,7 @@ class World:
                     else:
                         self.live.grow_missing(verbosity=0)
                     raised = False
-                except Exception:
+                except (Exception, KeyboardInterrupt):
                     raised = True
             if not raised:
                 vio.append((key("no-error"),
@@ -518,12 +530,15 @@ def run(ctx):
                         max_states=cfg.get("max_states"),
                         label="N%d%s%d%s" % (cfg["N"], cfg["mode"][0],
                                              cfg["req"],
-                                             "c" if cfg.get("cases") else ""))
+                                             ("c" if cfg.get("cases") else "")
+                                             + ("n" if cfg.get("kind") else "")))
         states += r["states"]
         transitions += r["transitions"]
         per["N=%d %s=%d (%s%s)" % (cfg["N"], cfg["mode"], cfg["req"],
-                                   cfg["alpha"], ", sown from cases"
-                                   if cfg.get("cases") else "")] = r
+                                   cfg["alpha"], (", sown from cases"
+                                   if cfg.get("cases") else "") + (
+                                       ", results None" if cfg.get("kind")
+                                       else ""))] = r
         if not r["fixpoint"]:
             ctx.exhaustive = False
     ctx.coverage_extra.update({
